@@ -327,7 +327,10 @@ class _Context:
             search = nonlocal_name.value
             if search in self._local_params_names:
                 continue
-            if search in global_name_strs or self.parent_context is None:
+            # A class body is not searched for the binding of a nonlocal name,
+            # a global declaration in there doesn't matter.
+            if search in global_name_strs and self.is_function() \
+                    or self.parent_context is None:
                 message = "no binding for nonlocal '%s' found" % nonlocal_name.value
                 self._add_syntax_error(nonlocal_name, message)
             elif not self.is_function() or \
